@@ -414,6 +414,27 @@ def check_fft(spec):
     res.label("fft:pow2" if pow2 else "fft:prime" if prime else "fft:composite",
               "fft:" + dtype)
     res.nontrivial = not pow2 and not prime
+    warm = spec.get("warm")
+    if warm:
+        # a single-precision transform of the same length first, in the same process:
+        # what it leaves behind must not reach the double-precision one
+        _need(warm in ("c64", "f32"), "fft warm-up dtype")
+        res.label("fft:after-single-precision-transform")
+        try:
+            if warm == "c64":
+                w = fft(np.array(data, dtype=np.complex64), sign=sign)
+            else:
+                w = fft(np.array([c.real for c in data], dtype=np.float32), sign=sign,
+                        complex_dtype=np.complex64)
+            res.compared()
+            errw = dft_ref.max_err(w, want if warm == "c64" else dft_ref.dft(
+                [complex(c.real, 0) for c in data], sign))
+            tolw = 1e-3 * n * max(1.0, dft_ref.max_abs(want))
+            if len(w) != n or not errw <= tolw:
+                res.fail("fft:value:single-precision",
+                         f"n={n} sign={sign} {warm}: max |fft - DFT| = {errw:.3g} > {tolw:.3g}")
+        except Exception as e:
+            res.fail(f"fft:raises:{_exc(e)}", f"n={n} sign={sign} {warm}: {e!r}")
     try:
         got = fft(arr, sign=sign, **kw)
     except Exception as e:
@@ -1313,7 +1334,8 @@ def generate(ctx):
                 i += 1
                 if ctx.mine(i):
                     judge("fft", {"x": x, "sign": sign, "dtype": dtype,
-                                  "sym": dtype == "c128"})
+                                  "sym": dtype == "c128",
+                                  **({"warm": ("c64", "f32")[n % 2]} if n % 3 == 0 else {})})
                     cells += 1
             if ctx.over_budget():
                 break
